@@ -143,7 +143,7 @@ fn c05_code_display() {
     kani::cover!(n == 0xFF, "7.31");
 }
 
-//@ props=C05 tier=thorough timeout=2400 model=0 stub_fmt=0
+//@ props=C05 tier=thorough timeout=3000 mem=30 model=0 stub_fmt=0
 //@ functions=Header::set_code
 //@ bounds=class digit 0..7, detail 00..31 as symbolic text "c.dd" (all 256 codes)
 //@ what=parsing the dotted text yields the byte c<<5|d and the class the registry assigns
@@ -160,30 +160,6 @@ fn c05_set_code_text() {
     assert!(u8::from(h.code) == (c << 5 | d), "C05: text c.dd parses to the byte c<<5|d");
     kani::cover!(c == 2 && d == 31, "2.31");
     kani::cover!(c == 7 && d == 31, "7.31");
-}
-
-//@ props=C05 tier=quick timeout=900 model=0 stub_fmt=0
-//@ functions=Header::set_code
-//@ bounds=class digit 0..7 symbolic, detail in {00, 05, 31} (concrete digits): 24 codes; the thorough harness c05_set_code_text covers all 256
-//@ what=parsing the dotted text yields the byte c<<5|d
-#[kani::proof]
-#[kani::unwind(6)]
-fn c05_set_code_text_small() {
-    let c: u8 = kani::any();
-    kani::assume(c <= 7);
-    let which: u8 = kani::any();
-    kani::assume(which < 3);
-    let (d, txt) = match which {
-        0 => (0u8, [b'0' + c, b'.', b'0', b'0']),
-        1 => (5u8, [b'0' + c, b'.', b'0', b'5']),
-        _ => (31u8, [b'0' + c, b'.', b'3', b'1']),
-    };
-    let s = unsafe { core::str::from_utf8_unchecked(&txt) };
-    let mut h = Header::new();
-    h.set_code(s);
-    assert!(u8::from(h.code) == (c << 5 | d), "C05: text c.dd parses to the byte c<<5|d");
-    kani::cover!(c == 2 && d == 31, "2.31");
-    kani::cover!(c == 4 && d == 0, "4.00");
 }
 
 //@ props=C04 tier=quick timeout=300 model=0
